@@ -1609,61 +1609,15 @@ Proof.
 Qed.
 
 (** ---- XADD with the ID * is the XADD of the ID it generated ---- *)
-Lemma digits_val_ge : forall l a v, 0 <= a -> Forall (fun c => is_digit c = true) l ->
-  digits_val l a = Some v -> a <= v.
+Lemma sid_text_not_star i : in_u64 i -> beq (sid_to_bytes i) (bs "*") = false.
 Proof.
-  induction l as [|c r IH]; intros a v Ha Hd H; cbn [digits_val] in H; [inversion H; lia|].
-  inversion Hd as [|? ? Hc Hr]; subst. rewrite Hc in H. unfold is_digit in Hc.
-  specialize (IH (a * 10 + (c - 48)) v). assert (0 <= a * 10 + (c - 48)) by lia. specialize (IH H0 Hr H). lia.
-Qed.
-Lemma parse_fast_digits : forall l a v, 0 <= a -> Forall (fun c => is_digit c = true) l ->
-  digits_val l a = Some v -> v < two64 -> parse_u64_fast l a = Some v.
-Proof.
-  induction l as [|c r IH]; intros a v Ha Hd H Hv; cbn [digits_val parse_u64_fast] in *; [exact H|].
-  inversion Hd as [|? ? Hc Hr]; subst. rewrite Hc in *. pose proof Hc as Hc'. unfold is_digit in Hc'.
-  assert (H0 : 0 <= a * 10 + (c - 48)) by lia.
-  pose proof (digits_val_ge r _ v H0 Hr H) as Hle.
-  rewrite Z.mod_small by lia. apply IH; auto.
-Qed.
-Lemma parse_fast_range : forall l a v, 0 <= a < two64 -> parse_u64_fast l a = Some v -> 0 <= v < two64.
-Proof.
-  induction l as [|c r IH]; intros a v Ha H; cbn [parse_u64_fast] in H; [inversion H; subst; exact Ha|].
-  destruct (is_digit c); [|discriminate]. eapply IH; [|exact H]. apply Z.mod_pos_bound. reflexivity.
-Qed.
-Lemma parse_fast_print n : 0 <= n < two64 -> parse_u64_fast (print_nat n) 0 = Some n.
-Proof.
-  intros H. assert (H40 : 0 <= n < 10 ^ 40) by (unfold two64 in H; lia).
-  destruct (print_nat_spec n H40) as [Hp Hd]. destruct (print_nat_head n H40) as (c & r & Hc & _).
-  unfold parse_digits in Hp. rewrite Hc in Hp. rewrite <- Hc in Hp.
-  apply parse_fast_digits; [lia|exact Hd|exact Hp|lia].
-Qed.
-Lemma split_dash_digits : forall a b, Forall (fun c => is_digit c = true) a ->
-  split_dash (a ++ 45 :: b) = Some (a, b).
-Proof.
-  induction a as [|c a IH]; intros b Hd; [reflexivity|]. inversion Hd as [|? ? Hc Hr]; subst.
-  cbn [app split_dash]. unfold is_digit in Hc. replace (c =? 45) with false by lia. rewrite IH by exact Hr. reflexivity.
-Qed.
-Lemma sid_text_roundtrip i : 0 <= fst i < two64 -> 0 <= snd i < two64 -> sid_of_bytes (sid_to_bytes i) = Some i.
-Proof.
-  intros H1 H2. unfold sid_of_bytes, sid_to_bytes. cbn [app].
-  assert (H40 : 0 <= fst i < 10 ^ 40) by (unfold two64 in H1; lia).
-  rewrite split_dash_digits by (apply (print_nat_spec _ H40)).
-  rewrite !parse_fast_print by assumption. destruct i; reflexivity.
-Qed.
-Lemma sid_text_not_star i : 0 <= fst i < two64 -> beq (sid_to_bytes i) (bs "*") = false.
-Proof.
-  intros H1. assert (H40 : 0 <= fst i < 10 ^ 40) by (unfold two64 in H1; lia).
+  intros [[H1 H1'] _]. assert (H40 : 0 <= fst i < 10 ^ 40) by (unfold u64_max in H1'; lia).
   destruct (print_nat_head _ H40) as (c & r & Hc & Hd). unfold sid_to_bytes. rewrite Hc. cbn [app].
   unfold is_digit in Hd. match goal with |- ?b = false => destruct b eqn:E end; [|reflexivity].
   apply beq_eq in E. inversion E. lia.
 Qed.
-Lemma oracle_sid_range o oid : oracle_sid o = Some oid -> 0 <= fst oid < two64 /\ 0 <= snd oid < two64.
-Proof.
-  unfold oracle_sid, sid_of_bytes. destruct o as [[]|]; try discriminate.
-  destruct (split_dash b) as [[x y]|]; [|discriminate].
-  destruct (parse_u64_fast x 0) as [ms|] eqn:E1; [|discriminate]. destruct (parse_u64_fast y 0) as [sq|] eqn:E2; [|discriminate].
-  intros H; inversion H; subst. cbn [fst snd]. split; eapply parse_fast_range; eauto; unfold two64; lia.
-Qed.
+Lemma oracle_sid_range o oid : oracle_sid o = Some oid -> in_u64 oid.
+Proof. unfold oracle_sid. destruct o as [[]|]; try discriminate. apply id_text_in_u64. Qed.
 
 (** the stream under the key satisfies the stream invariant of Proofs/StreamFacts.v (C15) *)
 Definition stream_fit (d : db) (k : bytes) : Prop :=
@@ -1743,7 +1697,7 @@ Proof.
     specialize (Hfit k eq_refl). unfold stream_fit in Hfit.
     destruct (auto_clock_sound s oid n Ea) as (ms & sq & Eg2).
     assert (id = oid) by (unfold st_add_auto in Es; rewrite Eg2 in Es; inversion Es; reflexivity). subst id.
-    destruct (oracle_sid_range o oid Eo) as [R1 R2].
+    pose proof (oracle_sid_range o oid Eo) as R.
     assert (Hinv : SInv s /\ in_u64 (s_last s)).
     { destruct Er as [Er|(Er & _ & ->)]; rewrite Er in Hfit; [exact Hfit|].
       split; [apply SInv_empty|]. unfold in_u64, empty_stream, sid_zero. cbn. unfold u64_max. lia. }
@@ -1753,7 +1707,7 @@ Proof.
       by (unfold nparts; rewrite !len_cons; reflexivity).
     rewrite Eg. cbn [nth_error arg_bytes].
     change (skipn 3 (a :: FBulk k :: FBulk (sid_to_bytes oid) :: rest)) with rest. rewrite Ef.
-    rewrite (sid_text_not_star oid R1), (sid_text_roundtrip oid R1 R2), Ez.
+    rewrite (sid_text_not_star oid R), (id_text_roundtrip oid R), Ez.
     destruct Er as [Er|(Er & -> & ->)]; rewrite Er, Ew; reflexivity.
 Qed.
 (** XADD * refused: nothing changed *)
@@ -1882,11 +1836,15 @@ Qed.
 (** ================= 8. blocking pops (Model/Blocking.v) ================= *)
 (** the pop a waiting client is served by a push (wake_client, delivery branch) is the event
     [EServed]: one LPOP / RPOP record, at the moment the element leaves the list *)
-Lemma wake_client_served s b u v d' cst :
+Lemma wake_client_served now s b u v d' cst :
+  was_expired now (get_db s (u_db u)) (u_key u) = false ->
   on_key (get_db s (u_db u)) (u_key u) (e_pop (u_left u)) = (FBulk v, d') ->
   zlookup (u_conn u) (b_blk b) = Some cst ->
-  fst (wake_client s b u) = served_pop s (u_db u) (u_left u) (u_key u).
-Proof. intros H Hb. unfold wake_client, served_pop. rewrite H, Hb. reflexivity. Qed.
+  fst (wake_client now s b u) = served_pop s (u_db u) (u_left u) (u_key u).
+Proof.
+  intros Hx H Hb. unfold wake_client, served_pop, purge_key. cbn [fst snd]. unfold was_expired in Hx.
+  destruct (get_entry (get_db s (u_db u)) (u_key u)) as [e|]; [rewrite Hx|]; cbn [fst snd]; rewrite H, Hb; reflexivity.
+Qed.
 
 (** no key holds an empty list (the engine removes a list when its last element goes) *)
 Definition no_empty_list (d : db) : Prop := forall k e, get_entry d k = Some e -> e_val e <> VList [].
@@ -1958,3 +1916,15 @@ Proof. intros Hi Hc Hd. exact (es_st _ _ _ _ (exec_queue_spec now c q s dbi acc 
 Lemma served_pop_state now s dbi lf k :
   linv s -> st_of (served_pop s dbi lf k) = run_items now (ev_items now s (EServed dbi lf k)) (st_of s).
 Proof. intros Hi. exact (es_st _ _ _ _ (served_pop_spec now s dbi lf k Hi)). Qed.
+(** a wake-up appends at most one record: the pop of the key that served the client *)
+Lemma wake_client_log now s b u :
+  s_aof (fst (wake_client now s b u)) = s_aof s \/
+  exists lf k, s_aof (fst (wake_client now s b u)) = aof_push (s_aof s) (u_db u) (pop_cmd lf k).
+Proof.
+  unfold wake_client.
+  destruct (on_key _ (u_key u) (e_pop (u_left u))) as [r d'].
+  destruct r; try (destruct (zlookup (u_conn u) (b_blk b)) as [st|]; [destruct (recheck _ _ _) as [[[k v]|] d'']|]; cbn [fst];
+    first [left; reflexivity | right; exists (bl_left st), k; unfold log_pop; rewrite s_aof_log_aof_in; reflexivity]).
+  destruct (zlookup (u_conn u) (b_blk b)); cbn [fst]; [|left; reflexivity].
+  right. exists (u_left u), (u_key u). unfold log_pop. rewrite s_aof_log_aof_in. reflexivity.
+Qed.
